@@ -9,7 +9,7 @@ Norm(n) == [zid |-> n.zid, kind |-> n.kind, words |-> SetOf(n.words), contLines 
             props |-> { << n.props[i][1], n.props[i][2] >> : i \in DOMAIN n.props }]
 NormSet(ns) == { Norm(ns[i]) : i \in DOMAIN ns }
 Rec(r) == [src |-> r.src, dest |-> r.dest, src2 |-> r.src2, dest2 |-> r.dest2, a |-> r.a, b |-> r.b, zid |-> r.zid,
-           marker |-> r.marker, ok2 |-> r.ok2, nsrc |-> NormSet(r.nsrc), ndest |-> NormSet(r.ndest),
+           marker |-> r.marker, ok2 |-> r.ok2, same |-> r.same, nsrc |-> NormSet(r.nsrc), ndest |-> NormSet(r.ndest),
            nsrc2 |-> NormSet(r.nsrc2), ndest2 |-> NormSet(r.ndest2)]
 TInit == tid \in DOMAIN Recs /\ phase = 0
 TNext == phase = 0 /\ phase' = 1 /\ UNCHANGED tid
